@@ -99,6 +99,52 @@ static PIPE_SCHED: PipeSched = PipeSched;
 
 /// The body of one opener process (runs in a forked copy of the worker, never returns).
 /// A commit that has to grow the file and map it again.
+/// The growing commit while another thread of the same process has a read transaction open: the
+/// reader ends as soon as it sees (raw `stat`, not a scheduling point) that the file has been
+/// extended, i.e. while the commit is busy replacing the map.  Process openers only.
+pub fn growth_commit_with_reader_thread(db: &jammdb::DB, path: &str) -> Result<(), String> {
+    fn raw_len(path: &std::ffi::CStr) -> i64 {
+        unsafe {
+            let mut st: libc::stat = std::mem::zeroed();
+            if libc::syscall(libc::SYS_stat, path.as_ptr(), &mut st as *mut libc::stat) == 0 {
+                st.st_size as i64
+            } else {
+                -1
+            }
+        }
+    }
+    let cpath = std::ffi::CString::new(path).map_err(|e| e.to_string())?;
+    let before = raw_len(&cpath);
+    let d2 = db.clone();
+    let (opened_tx, opened_rx) = std::sync::mpsc::channel::<Result<(), String>>();
+    let cp2 = cpath.clone();
+    let h = std::thread::spawn(move || {
+        let tx = match d2.tx(false) {
+            Ok(tx) => tx,
+            Err(e) => {
+                let _ = opened_tx.send(Err(format!("reader thread: tx(false): {:?}", e)));
+                return;
+            }
+        };
+        let _ = opened_tx.send(Ok(()));
+        let t0 = std::time::Instant::now();
+        while raw_len(&cp2) == before && t0.elapsed() < std::time::Duration::from_secs(20) {
+            std::thread::sleep(std::time::Duration::from_millis(1));
+        }
+        std::thread::sleep(std::time::Duration::from_millis(5));
+        drop(tx);
+        drop(d2);
+    });
+    match opened_rx.recv() {
+        Ok(Ok(())) => {}
+        Ok(Err(e)) => return Err(e),
+        Err(_) => return Err("reader thread ended before it had opened its transaction".into()),
+    }
+    let r = growth_commit(db);
+    let _ = h.join();
+    r
+}
+
 pub fn growth_commit(db: &jammdb::DB) -> Result<(), String> {
     let r = real::guarded(|| -> Result<(), String> {
         let tx = db.tx(true).map_err(|e| format!("tx(true): {:?}", e))?;
@@ -209,7 +255,8 @@ fn child_body(path: &str, i: usize, n: usize, init_fault: bool, second_fd: bool,
     drop(helper);
     say("I entered");
     if grow_plain {
-        if let Err(e) = growth_commit(&db) {
+        let r = if with_helper { growth_commit_with_reader_thread(&db, &path) } else { growth_commit(&db) };
+        if let Err(e) = r {
             say(&format!("I err {}", e));
         }
     }
